@@ -117,7 +117,7 @@ def py_binding(method, args, kwargs):
 
 class History(Suite):
     name = 'cached_history'
-    imports = 'Value Cached'
+    imports = 'Value Dict Cached'
     shard = 60
     in_type = '(list param * list str * list call)'
     out_type = '(list (option value) * nat * list value)'
@@ -272,7 +272,7 @@ Definition hist_model (c : list param * list str * list call) : list (option val
 class Methods(Suite):
     """the object's own cache: methods and versions never share entries"""
     name = 'methods_and_versions'
-    imports = 'Value Cached'
+    imports = 'Value Dict Cached'
     shard = 60
     in_type = '(list method * list (nat * list value * list (str * value)))'
     out_type = 'list (option value)'
